@@ -183,6 +183,16 @@ def _num_of_q(q):
 IMMUTABLE_VARIANT = {}
 
 
+FORMAT_TOKENS = {"DateString": "@date:", "TimeString": "@time", "IPV4": "@ipv4", "HostName": "@hostname", "JSONString": "@json"}
+
+
+def _format_field(token, **extra):
+    import typedpy as T
+    if token.startswith("@date:"):
+        return T.DateString(date_format=token[len("@date:"):], **extra)
+    return {"@time": T.TimeString, "@ipv4": T.IPV4, "@hostname": T.HostName, "@json": T.JSONString}[token](**extra)
+
+
 def build_field(d, ctx, **extra):
     """model declaration (JSON) -> real typedpy Field instance"""
     k = d["k"]
@@ -203,6 +213,10 @@ def build_field(d, ctx, **extra):
         if d.get("excl"):
             kw["exclusiveMaximum"] = True
         return cls(**kw, **extra)
+    if k == "string" and str(d.get("pattern") or "").startswith("@"):
+        # a format-checking string field (extfields), carried on the wire as a String whose "pattern" is a synthetic
+        # token; the model's regex oracle is answered for that token by an independent implementation (suites/formats.py)
+        return _format_field(d["pattern"], **extra)
     if k == "string":
         kw = {n: d[n] for n in ("minLength", "maxLength", "pattern") if d.get(n) is not None}
         return String(**kw, **extra)
@@ -376,6 +390,8 @@ def dump_field(f, ctx=None):
         if f.exclusiveMaximum:
             d["excl"] = True
         return d
+    if t.__name__ in FORMAT_TOKENS and t.__module__ == "typedpy.extfields.extfields":
+        return {"k": "string", "pattern": FORMAT_TOKENS[t.__name__] + (getattr(f, "_format", "") if t.__name__ == "DateString" else "")}
     if t is String:
         d = {"k": "string"}
         for n in ("minLength", "maxLength", "pattern"):
